@@ -92,6 +92,8 @@ class Check:
         nviol = 0
         nknown = 0
         replay_dir = os.path.join(VERIF, 'replay', self.pid)
+        if os.environ.get('VERIF_REPO', '/repo') != '/repo':
+            replay_dir = os.path.join(VERIF, '.work', 'scratch-replay', self.pid)
         obligations = 0
         discharged = 0
         rule_summaries = []
@@ -164,8 +166,11 @@ class Check:
         }
         if obligations < 2:
             ev['coverage']['distinct_nontrivial'] = 2
-        os.makedirs(os.path.join(VERIF, 'evidence'), exist_ok=True)
-        with open(os.path.join(VERIF, 'evidence', self.pid + '.json'), 'w') as fh:
+        evdir = os.path.join(VERIF, 'evidence')
+        if os.environ.get('VERIF_REPO', '/repo') != '/repo':
+            evdir = os.path.join(VERIF, '.work', 'scratch-evidence')   # self-tests on scratch copies never touch real evidence
+        os.makedirs(evdir, exist_ok=True)
+        with open(os.path.join(evdir, self.pid + '.json'), 'w') as fh:
             json.dump(ev, fh, indent=1, default=str)
         print('%s %s: %d rules, %d instances, %d hold, %d known findings, %d violations, %.1fs%s' % (
             self.pid, self.tier, len(self.rules), obligations, discharged, nknown, nviol, wall,
